@@ -34,6 +34,10 @@ UNITS = ["dozen", "hundred", "thousand", "million"]
 def gen_exp(rng, assigned, depth):
     r = rng.random()
     if depth <= 0 or r < 0.3:
+        if rng.random() < 0.12:
+            # a lazy factorial / binomial: to a session it must be the plain number it stands for
+            return rng.choice([("lazy", "%d!" % n, math.factorial(n)) for n in (0, 3, 4, 5, 6)] +
+                              [("lazy", "C(%d,%d)" % (n, k), math.comb(n, k)) for n, k in ((4, 2), (6, 2), (5, 3))])
         if rng.random() < 0.5:
             return ("lit", rng.randrange(-9, 30))
         pool = [n for n in NAMES if n in assigned or n in ("true", "false")] or ["true"]
@@ -54,6 +58,8 @@ def text_exp(t):
     k = t[0]
     if k == "lit":
         return str(t[1]) if t[1] >= 0 else "(0-%d)" % -t[1]
+    if k == "lazy":
+        return t[1]
     if k == "var":
         return t[1]
     if k == "add":
@@ -69,6 +75,8 @@ def sx_exp(t):
     k = t[0]
     if k == "lit":
         return "(lit %d)" % t[1]
+    if k == "lazy":
+        return "(lit %d)" % t[2]
     if k == "var":
         return "(var %s)" % t[1]
     if k in ("add", "mul"):
@@ -104,6 +112,8 @@ def sx_stmt(s):
 
 
 def canon_val(v, T):
+    if isinstance(v, T.Combinatoric):
+        v = v.resolve()
     if isinstance(v, T.Quantity):
         if any(v.qv.v.xs):
             return "dim"
